@@ -68,9 +68,17 @@ def md_obs(md):
 
 
 def gmd_src(g):
+    """group metadata given as (data_type, payload) pairs"""
     if not g:
         return []
-    return [[str(k), str(v[0]), str(v[1])] for k, v in g.items()]
+    return [[str(k), str(v[0]), str(v[1])] for k, v in g.items() if not isinstance(v, str)]
+
+
+def gmd_bare(g):
+    """group metadata held as bare text (the form from_hdf5 hands back)"""
+    if not g:
+        return []
+    return [[str(k), str(v)] for k, v in g.items() if isinstance(v, str)]
 
 
 def dense_rows(t):
@@ -90,6 +98,7 @@ def src_obs(t):
             "omd": md_obs(t.metadata(axis="observation")), "smd": md_obs(t.metadata()),
             "type": t.type, "table_id": t.table_id,
             "ogmd": gmd_src(t.group_metadata("observation")), "sgmd": gmd_src(t.group_metadata("sample")),
+            "ogmd_bare": gmd_bare(t.group_metadata("observation")), "sgmd_bare": gmd_bare(t.group_metadata("sample")),
             "own_generated_by": None if t.generated_by is None else str(t.generated_by),
             "own_create_date": None if t.create_date is None else
             (t.create_date.isoformat() if hasattr(t.create_date, "isoformat") else str(t.create_date))}
@@ -162,8 +171,8 @@ def attr_json(v):
     return {"k": "other"}
 
 
-def raw_tree(path):
-    """the file as raw h5py shows it (no biom code involved)"""
+def raw_tree(path, group=None):
+    """the file (or one of its groups) as raw h5py shows it (no biom code involved)"""
     import h5py
 
     def named(g):
@@ -188,7 +197,8 @@ def raw_tree(path):
                              for k in ("data", "indices", "indptr")}
         return out
 
-    with h5py.File(path, "r") as f:
+    with h5py.File(path, "r") as f0:
+        f = f0 if group is None else f0[group]
         return {"attrs": [[str(k), attr_json(v)] for k, v in f.attrs.items()],
                 "observation": ax(f, "observation"), "sample": ax(f, "sample")}
 
@@ -249,18 +259,29 @@ def gen_ids(rng, n, prefix):
     return ids
 
 
-def gen_md(rng, ids, axis):
+POOL = [("grp", "text"), ("na/me", "text"), ("désc", "text"), ("depth", "int"), ("big/int", "int"),
+        ("ph", "float"), ("flag", "bool"), ("a/b/c", "float"), ("/lead", "bool"), ("trail/", "text")]
+# names that only LOOK like the reserved hierarchical ones (other case, prefix, suffix): ordinary categories
+LOOKALIKES = ["TAXONOMY", "taxonomy2", "kegg_pathways", "Collapsed_IDs", "KEGG_pathways", "xtaxonomy", "Taxonomy "]
+FLAT_TAX = ["k__A; p__x", "k__B", "", " k__C ;p__y; c__z ", "k__D;;c__q", "k__β; p__x y", "k__A;p__x;c__y;o__z"]
+
+
+def gen_md(rng, ids, axis, flat_ok=False):
     """per-category-homogeneous metadata, same categories on every ID"""
     if not ids or rng.random() < 0.3:
         return None
     cats = []
-    pool = [("grp", "text"), ("na/me", "text"), ("désc", "text"), ("depth", "int"), ("big/int", "int"),
-            ("ph", "float"), ("flag", "bool"), ("a/b/c", "float"), ("/lead", "bool"), ("trail/", "text")]
+    pool = list(POOL)
     rng.shuffle(pool)
     cats = pool[:rng.choice([1, 1, 2, 3, 4])]
+    if rng.random() < 0.3:
+        cats.append((rng.choice(LOOKALIKES), rng.choice(["text", "int", "float", "bool"])))
     if rng.random() < 0.5:
         sp = rng.choice(["taxonomy", "collapsed_ids"] if axis == "sample" else SPECIAL)
-        cats.append((sp, rng.choice(["list", "tuple"])))
+        if sp == "taxonomy" and flat_ok and rng.random() < 0.45:
+            cats.append((sp, "flat"))          # classic-TSV style 'k__A; p__x' texts (C04 only: they come back as lists)
+        else:
+            cats.append((sp, rng.choice(["list", "tuple"])))
     md = []
     for i, _ in enumerate(ids):
         e = {}
@@ -273,6 +294,8 @@ def gen_md(rng, ids, axis):
                 e[name] = core.gen_value(rng, rng.choice(["dyadic", "neg", "tiny", "big", "bits"]))
             elif kind == "bool":
                 e[name] = rng.random() < 0.5
+            elif kind == "flat":
+                e[name] = rng.choice(FLAT_TAX)
             else:
                 lvl = rng.randint(1, 4)
                 v = ["%s__%s" % ("kpcofgs"[j], rng.choice(["A", "β", "x y", "q/r", "Z" * 12])) for j in range(lvl)]
@@ -281,7 +304,7 @@ def gen_md(rng, ids, axis):
     return md
 
 
-def gen_case(rng, quick=True, empty_axes=True):
+def gen_case(rng, quick=True, empty_axes=True, flat_tax=False, allow_group=True):
     big = 6 if quick else 9
     n = rng.choice([1, 2, 2, 3, 3, 4, 5, big])
     m = rng.choice([1, 2, 2, 3, 3, 4, 5, big])
@@ -307,7 +330,7 @@ def gen_case(rng, quick=True, empty_axes=True):
     obs = gen_ids(rng, n, "O")
     samp = gen_ids(rng, m, "S")
     spec = {"obs": obs, "samp": samp, "rows": core.gen_grid(rng, n, m, density, classes) if n and m else [[] for _ in range(n)],
-            "omd": gen_md(rng, obs, "observation"), "smd": gen_md(rng, samp, "sample"),
+            "omd": gen_md(rng, obs, "observation", flat_tax), "smd": gen_md(rng, samp, "sample", flat_tax),
             "type": rng.choice(core.TYPES), "table_id": rng.choice(TABLE_IDS)}
     case = {"spec": spec, "route": route, "perm_seed": rng.randint(0, 10 ** 6),
             "generated_by": rng.choice(GEN_BYS), "compress": rng.random() < 0.5,
@@ -316,8 +339,28 @@ def gen_case(rng, quick=True, empty_axes=True):
             "ogmd": rng.choice(GROUP_MD), "sgmd": rng.choice(GROUP_MD),
             # header values the table object itself carries; the file must get the writer's ARGUMENTS
             "own": rng.choice(OWN_HEADERS),
-            "writer": rng.choice(["to_hdf5", "to_hdf5", "to_hdf5", "save_table", "convert"])}
+            "writer": rng.choice(["to_hdf5", "to_hdf5", "to_hdf5", "save_table", "convert"]),
+            # the caller's h5py.File may have been created with a user block (HDF5 signature not at offset 0)
+            "userblock": rng.choice([0, 0, 0, 512, 1024])}
+    if allow_group and rng.random() < 0.12:
+        # the target is an h5py.Group that is not the root: two tables in one file, /run1 and /run2
+        sib = gen_case(rng, quick, empty_axes=False, flat_tax=flat_tax, allow_group=False)
+        sib["route"] = rng.choice(core.ROUTES)
+        sib["writer"] = "to_hdf5"
+        case["writer"] = rng.choice(["to_hdf5", "to_hdf5", "save_table"])
+        case["group"] = {"pos": rng.randint(0, 1), "sibling": sib}
     return case
+
+
+class Unobservable(Exception):
+    """the real code raised where the property says it must not (writing a table of the domain, reading the
+    written file back raw): an observation, reported as a violation by the caller"""
+
+    def __init__(self, stage, exc, src=None):
+        Exception.__init__(self, "%s: %s: %s" % (stage, type(exc).__name__, str(exc)[:300]))
+        self.stage = stage
+        self.exc_name = type(exc).__name__
+        self.src = src
 
 
 def _scratch_write(t, tmp, gen_by="first writer", date=None):
@@ -328,6 +371,8 @@ def _scratch_write(t, tmp, gen_by="first writer", date=None):
     try:
         with h5py.File(path, "w") as f:
             t.to_hdf5(f, gen_by, creation_date=date)
+    except Exception as e:                          # noqa: BLE001 — a write of a table of the domain raised
+        raise Unobservable("write", e)
     finally:
         if os.path.exists(path):
             os.remove(path)
@@ -442,9 +487,15 @@ def build_table(case, tmp=None):
         path = os.path.join(tmp, "first_%d.biom" % os.getpid())
         fresh(path)
         try:
-            with h5py.File(path, "w") as f:
-                first.to_hdf5(f, "first writer", creation_date=datetime.datetime(2001, 2, 3, 4, 5, 6))
-            t = biom.load_table(path)
+            try:
+                with h5py.File(path, "w") as f:
+                    first.to_hdf5(f, "first writer", creation_date=datetime.datetime(2001, 2, 3, 4, 5, 6))
+            except Exception as e:                  # noqa: BLE001
+                raise Unobservable("write", e)
+            try:
+                t = biom.load_table(path)
+            except Exception as e:                  # noqa: BLE001
+                raise Unobservable("load", e)
         finally:
             if os.path.exists(path):
                 os.remove(path)
@@ -489,15 +540,35 @@ def case_date(case):
     return None if d is None else datetime.datetime(*d)
 
 
-def write_file(case, t, path):
+def group_name(case):
+    g = case.get("group")
+    return None if not g else "run%d" % (g["pos"] + 1)
+
+
+def write_file(case, t, path, tmp=None):
     """write with the real code; returns (generated_by actually passed, date passed or None)"""
     import h5py
     import biom
     from biom.parse import save_table, generatedby
     w = case["writer"]
     date = case_date(case)
-    if w == "to_hdf5":
+    if case.get("group"):
+        # two tables in one file: this one and its sibling, each in its own (non-root) group
+        sib_case = case["group"]["sibling"]
+        sib = build_table(sib_case, tmp)
+        order = [(case, t), (sib_case, sib)] if case["group"]["pos"] == 0 else [(sib_case, sib), (case, t)]
         with h5py.File(path, "w") as f:
+            for k, (cs, tab) in enumerate(order):
+                g = f.create_group("run%d" % (k + 1))
+                if cs["writer"] == "save_table":
+                    save_table(tab, g, generated_by=cs["generated_by"], compress=cs["compress"],
+                               creation_date=case_date(cs))
+                else:
+                    tab.to_hdf5(g, cs["generated_by"], compress=cs["compress"], creation_date=case_date(cs))
+        return case["generated_by"], date
+    if w == "to_hdf5":
+        ub = case.get("userblock") or 0
+        with (h5py.File(path, "w", userblock_size=ub) if ub else h5py.File(path, "w")) as f:
             t.to_hdf5(f, case["generated_by"], compress=case["compress"], creation_date=date)
         return case["generated_by"], date
     if w == "save_table":
@@ -513,26 +584,53 @@ def write_file(case, t, path):
     raise ValueError(w)
 
 
+# ----------------------------------------------------------------------------- process-level state
+def _poison_formatter(grp, header, md, compression):
+    import h5py
+    name = "metadata/%s" % header.replace("/", "@@SLASH@@")
+    grp.create_dataset(name, shape=(len(md),), dtype=h5py.special_dtype(vlen=str), data=[b"POISON"] * len(md))
+
+
+def poison_process(ctx, tmp):
+    """a to_hdf5 with a caller-supplied `format_fs` and a from_hdf5 with a caller-supplied `parse_fs` for the very
+    category names the default cases use afterwards: nothing of it may stay registered in the process"""
+    import h5py
+    import numpy as np
+    from biom import Table
+    names = [n for n, _ in POOL] + SPECIAL + LOOKALIKES + ["k", "added"]
+    md = [{n: "Value%d" % i for n in names} for i in range(2)]
+    md2 = [{n: "Value%d" % i for n in names if n not in SPECIAL} for i in range(3)]
+    path = os.path.join(tmp, "poison_%d.biom" % os.getpid())
+    fresh(path)
+    try:
+        t = Table(np.array([[1.0, 2.0, 0.0], [0.0, 3.0, 4.0]]), ["p1", "p2"], ["q1", "q2", "q3"], md, md2)
+        with h5py.File(path, "w") as f:
+            t.to_hdf5(f, "poison", format_fs={n: _poison_formatter for n in names})
+        with h5py.File(path, "r") as f:
+            Table.from_hdf5(f, parse_fs={n: (lambda x: "POISONED") for n in names})
+        ctx.count("custom format_fs/parse_fs call made before default round trips")
+    except Exception as e:                          # noqa: BLE001 — the custom call itself is not what is checked
+        ctx.count("custom format_fs/parse_fs call raised")
+        ctx.notes.append("custom format_fs/parse_fs call raised: %s: %s" % (type(e).__name__, str(e)[:200]))
+    finally:
+        if os.path.exists(path):
+            os.remove(path)
+
+
 def fresh(path):
     os.makedirs(os.path.dirname(path), exist_ok=True)
     if os.path.exists(path):
         os.remove(path)
 
 
-class Unobservable(Exception):
-    """the real code raised where the property says it must not (writing a table of the domain, reading the
-    written file back raw): an observation, reported as a violation by the caller"""
-
-    def __init__(self, stage, exc, src=None):
-        Exception.__init__(self, "%s: %s: %s" % (stage, type(exc).__name__, str(exc)[:300]))
-        self.stage = stage
-        self.exc_name = type(exc).__name__
-        self.src = src
-
-
 def prepare(case, tmp):
     """build the table (history included) and observe it; -> (table, src observation, scipy fallback views)"""
-    t = build_table(case, tmp)
+    try:
+        t = build_table(case, tmp)
+    except Unobservable:
+        raise
+    except Exception as e:                          # noqa: BLE001 — an operation of the history itself raised
+        raise Unobservable("history", e)
     if case["writer"] == "convert" and case["spec"].get("type") is None:
         # `_convert` sets the type before writing: the table that is written is the one after that
         t.type = "Table" if t.type in (None, "None") else t.type
@@ -549,11 +647,11 @@ def write_and_read_raw(case, tmp=TMP, tag="c"):
     fresh(path)
     try:
         try:
-            gen_by, date = write_file(case, t, path)
+            gen_by, date = write_file(case, t, path, tmp)
         except Exception as e:                      # noqa: BLE001
             raise Unobservable("write", e, src)
         try:
-            raw = raw_tree(path)
+            raw = raw_tree(path, group_name(case))
         except Exception as e:                      # noqa: BLE001
             raise Unobservable("raw-read", e, src)
     finally:
@@ -583,6 +681,10 @@ def tags_of(case, src):
     tags = ["route=" + case["route"], "writer=" + case["writer"], "compress=%s" % case["compress"]]
     if case.get("own"):
         tags.append("table-carries-own-generated_by")
+    if case.get("group"):
+        tags.append("target=non-root group (two tables per file)")
+    elif case.get("userblock") and case["writer"] == "to_hdf5":
+        tags.append("file with user block")
     if not src["obs"] or not src["samp"]:
         tags.append("empty-axis")
     if any(ord(ch) > 127 for i in src["obs"] + src["samp"] for ch in i):
@@ -597,6 +699,11 @@ def check_case(ctx, case, tmp=TMP):
         src, pre, raw, gen_by, date = write_and_read_raw(case, tmp)
     except Unobservable as u:
         ctx.case({"case": case, "unobservable": u.stage}, nontrivial=False)
+        if u.stage == "history":
+            # an operation that only prepares the table raised: not this property's subject; counted and noted
+            ctx.count("history-raised(skipped):" + case["route"])
+            ctx.notes.append("history raised, case skipped: %s" % u)
+            return None
         ctx.fail({"case": case}, "C04.%s-raised" % u.stage, ["route=" + case["route"], "writer=" + case["writer"],
                                                             "exc=" + u.exc_name], detail={"what": str(u), "src": u.src})
         return None
@@ -615,7 +722,8 @@ def check_case(ctx, case, tmp=TMP):
     for ax in ("omd", "smd"):
         if src[ax]:
             for k, v in src[ax][0]:
-                ctx.count("md=" + v["t"] + ("/special" if k in SPECIAL else "") + ("/slash" if "/" in k else ""))
+                ctx.count("md=" + v["t"] + ("/special" if k in SPECIAL else "/lookalike" if k in LOOKALIKES else "") +
+                          ("/slash" if "/" in k else ""))
     rec = {"case": case}
     if not r["model_holds"] and r["model"].get("error") is None:
         ctx.diverge(rec, "holds is false of toH5 on the layouts found in the file (layout contract broken, or toH5_specWF contradicted)", tags)
@@ -628,6 +736,16 @@ def check_case(ctx, case, tmp=TMP):
 
 # the repaired defects first (F-C04-1: ids dtype of an empty axis; F-C01-1: non-ASCII ids)
 CORPUS = [
+    # repaired 21119f91: write -> load -> write again with group metadata (payloads of length 2 and != 2)
+    {"spec": {"obs": ["o1", "o2"], "samp": ["s1", "s2"], "rows": [[1.0, 2.0], [3.0, 4.0]], "omd": None, "smd": None,
+              "type": "OTU table"},
+     "route": "reloaded", "perm_seed": 0, "generated_by": "second writer", "compress": True, "date": [2020, 1, 2, 3, 4, 5, 0],
+     "ogmd": {"tree": ("newick", "(a,b);"), "k": ("text", "ab")}, "sgmd": {"rel": ("text", "xy")}, "own": None,
+     "writer": "to_hdf5"},
+    {"spec": {"obs": ["o1", "o2"], "samp": ["s1", "s2"], "rows": [[0.0, 2.0], [3.0, 0.0]], "omd": None, "smd": None,
+              "type": None},
+     "route": "reloaded", "perm_seed": 0, "generated_by": "second writer", "compress": False, "date": None,
+     "ogmd": {"k": ("text", "ab")}, "sgmd": {"tree": ("newick", "((é,ö),c);")}, "own": None, "writer": "save_table"},
     {"spec": {"obs": [], "samp": ["s1", "s2", "s3"], "rows": [], "omd": None, "smd": None, "type": None},
      "route": "dense", "perm_seed": 0, "generated_by": "x", "compress": True, "date": None, "ogmd": None, "sgmd": None,
      "writer": "to_hdf5"},
@@ -646,6 +764,35 @@ CORPUS = [
      "route": "csr_zeros", "perm_seed": 0, "generated_by": "x", "compress": True, "date": None, "ogmd": None,
      "sgmd": None, "writer": "to_hdf5"},
 ]
+
+
+def _fixed(omd=None, smd=None, **kw):
+    spec = {"obs": ["o1", "o2", "o3"], "samp": ["s1", "s2"], "rows": [[1.0, 0.0], [0.0, 2.5], [3.0, 4.0]],
+            "omd": omd, "smd": smd, "type": kw.get("type"), "table_id": kw.get("table_id")}
+    case = {"spec": spec, "route": "dense", "perm_seed": 0, "generated_by": "x", "compress": False,
+            "date": [2020, 1, 2, 3, 4, 5, 0], "ogmd": None, "sgmd": None, "own": None, "writer": "to_hdf5", "userblock": 0}
+    case.update({k: v for k, v in kw.items() if k not in ("type", "table_id")})
+    return case
+
+
+# inputs of the classes found by adversarial review, fixed (both checks run them first)
+CORPUS_R2 = [
+    # names that only look like the reserved hierarchical ones, with text / numeric values
+    _fixed(omd=[{"TAXONOMY": "a", "kegg_pathways": 1, "site/name": "x"}, {"TAXONOMY": "b", "kegg_pathways": 2, "site/name": "y"},
+                {"TAXONOMY": "", "kegg_pathways": 3, "site/name": "z"}],
+           smd=[{"Collapsed_IDs": 1.5, "taxonomy2": "q"}, {"Collapsed_IDs": -2.0, "taxonomy2": "r"}]),
+    # the caller's file has a user block
+    _fixed(userblock=512, smd=[{"grp": "a"}, {"grp": "b"}]),
+    _fixed(userblock=1024),
+]
+_sib = _fixed(omd=[{"depth": 1}, {"depth": 2}, {"depth": 3}], table_id="sibling", type="OTU table")
+_sib["spec"]["rows"] = [[0.0, 7.0], [8.0, 0.0], [0.0, 0.0]]
+# two tables in one file, each in a non-root group; each of the two is checked
+CORPUS_R2 += [_fixed(group={"pos": 0, "sibling": _sib}, table_id="first"),
+              _fixed(group={"pos": 1, "sibling": _sib}, table_id="second", writer="save_table")]
+# C04 only: flat classic-TSV taxonomy texts (one row per ID, also for '' and for a text without ';')
+CORPUS_FLAT = [_fixed(omd=[{"taxonomy": "k__A; p__x"}, {"taxonomy": ""}, {"taxonomy": "k__C"}]),
+               _fixed(omd=[{"taxonomy": ""}, {"taxonomy": " k__B ;p__y; c__z "}, {"taxonomy": "k__D;;c__q"}])]
 
 
 def _edge(omd=None, smd=None, **kw):
@@ -670,7 +817,11 @@ EDGE = {
 
 def edge_stream(ctx, tmp=TMP):
     for name, case in EDGE.items():
-        src, pre, raw, gen_by, date = write_and_read_raw(case, tmp, tag="e")
+        try:
+            src, pre, raw, gen_by, date = write_and_read_raw(case, tmp, tag="e")
+        except Unobservable as u:
+            ctx.count("out-of-domain(agreement only):%s:real code raised at %s" % (name, u.stage))
+            continue
         r = ctx.driver.ask(request(case, src, pre, raw, gen_by, date))
         ctx.case({"edge": name, "raw": raw}, nontrivial=False)
         ctx.count("out-of-domain(agreement only):%s:holds=%s" % (name, r["holds"]))
@@ -685,17 +836,22 @@ def cli_case(ctx, case, tmp=TMP):
     import biom.cli
     from biom.parse import generatedby
     from click.testing import CliRunner
-    t = build_table(dict(case, route="dense", ogmd=None, sgmd=None), tmp)
-    src_path = os.path.join(tmp, "in_%d.json" % os.getpid())
-    out_path = os.path.join(tmp, "out_%d.biom" % os.getpid())
-    fresh(src_path); fresh(out_path)
     try:
+        t = build_table(dict(case, route="dense", ogmd=None, sgmd=None, own=None), tmp)
+        src_path = os.path.join(tmp, "in_%d.json" % os.getpid())
+        out_path = os.path.join(tmp, "out_%d.biom" % os.getpid())
+        fresh(src_path); fresh(out_path)
         with open(src_path, "w") as f:
             f.write(t.to_json("verif"))
         loaded = biom.load_table(src_path)
         loaded.type = "Table" if loaded.type in (None, "None") else loaded.type
         src = src_obs(loaded)
         pre = scipy_views(loaded)
+    except Exception as e:                          # noqa: BLE001 — the JSON prelude is not this property's subject
+        ctx.count("history-raised(skipped):cli-json-prelude")
+        ctx.notes.append("cli prelude raised, case skipped: %s: %s" % (type(e).__name__, str(e)[:200]))
+        return
+    try:
         # the sub-command object is invoked, not the click group (the group's close handler re-opens
         # fd 1 and would close the process' stdout); the duplicate of fd 1 is a second safeguard
         import biom.cli.table_converter as tc
@@ -706,10 +862,16 @@ def cli_case(ctx, case, tmp=TMP):
             os.dup2(saved, 1)
             os.close(saved)
         if res.exit_code != 0:
-            ctx.fail({"case": case, "cli": True}, "C04.cli-exit", ["cli"], detail={"output": res.output[-500:],
-                                                                              "exc": repr(res.exception)})
+            ctx.case({"cli": True, "src": src, "exit": res.exit_code}, nontrivial=False)
+            ctx.fail({"case": case, "cli": True}, "C04.write-raised", ["cli", "writer=cli-convert"],
+                     detail={"output": res.output[-500:], "exc": repr(res.exception)})
             return
-        raw = raw_tree(out_path)
+        try:
+            raw = raw_tree(out_path)
+        except Exception as e:                      # noqa: BLE001
+            ctx.case({"cli": True, "src": src, "raw": "unreadable"}, nontrivial=False)
+            ctx.fail({"case": case, "cli": True}, "C04.raw-read-raised", ["cli"], detail={"what": repr(e)})
+            return
     finally:
         for p in (src_path, out_path):
             if os.path.exists(p):
@@ -738,12 +900,16 @@ def run(ctx):
     os.makedirs(tmp, exist_ok=True)
     try:
         if widx == 0:
-            for case in CORPUS:
+            poison_process(ctx, tmp)
+            for case in CORPUS + CORPUS_R2 + CORPUS_FLAT:
                 check_case(ctx, case, tmp)
                 ctx.count("corpus")
         n = 560 if ctx.quick() else 48000 // wcount
-        for _ in range(n):
-            check_case(ctx, gen_case(ctx.rng, ctx.quick()), tmp)
+        poison_process(ctx, tmp)
+        for k in range(n):
+            if k == n // 2:
+                poison_process(ctx, tmp)
+            check_case(ctx, gen_case(ctx.rng, ctx.quick(), flat_tax=True), tmp)
         for _ in range(12 if ctx.quick() else 400 // wcount):
             case = gen_case(ctx.rng, ctx.quick(), empty_axes=False)
             cli_case(ctx, case, tmp)
